@@ -137,10 +137,12 @@ def case_strategy(max_depth=6):
     err_fn = st.sampled_from([None, None, [["app", "h"]], [["reraise"]], [["raisearg", "E2"]], [["retexc"]]])
     flat_fn = st.sampled_from([None, [["futarg", "done"]], [["futarg", "done"]], [["futarg", "err", "E2"]], [["raisearg", "E1"]], [["nonfut"]]])
 
+    flat_err = st.sampled_from([None, None, [["futarg", "done"]], [["futarg", "err", "E3"]], [["raisearg", "E2"]], [["reraise"]], [["nonfut"]]])
+
     def layer():
         return st.one_of(
             st.builds(lambda f, e: {"kind": "map", "fn": f, "err": e}, map_fn, err_fn),
-            st.builds(lambda f: {"kind": "flat_map", "fn": f, "err": None}, flat_fn),
+            st.builds(lambda f, e: {"kind": "flat_map", "fn": f, "err": e}, flat_fn, flat_err),
             gen.retry_policies().map(lambda p: {"kind": "retry", "policy": p}),
             st.builds(lambda iv: {"kind": "poll", "interval": iv, "per_sub": {}}, gen.DELAYS),
             st.sampled_from([1, 2, 3, None]).map(lambda c: {"kind": "throttle", "count": c}),
